@@ -26,18 +26,37 @@ func MustParseDate(s string) Date {
 func ParseDate(s string) (Date, error) {
 	if s == "" {
 		return Date{}, fmt.Errorf("blank date string")
-	} else if date, err := time.ParseInLocation("2006-01-02", s, time.Local); err != nil {
+	} else if date, err := time.Parse("2006-01-02", s); err != nil {
 		return Date{}, err
 	} else {
-		return Date(date), nil
+		return Date(startOfDay(date)), nil
 	}
 }
 
 // Utility function to explicitly construct a Date from year, month and day.
 func ToDate(year int, month time.Month, day int) Date {
-	date := time.Date(year, month, day, 0, 0, 0, 0, time.Local)
+	date := time.Date(year, month, day, 0, 0, 0, 0, time.UTC)
 
-	return Date(date)
+	return Date(startOfDay(date))
+}
+
+// Returns the start of the calendar day of 'date' in the local time zone.
+//
+// Local midnight does not exist on days on which a daylight savings (or other) time zone
+// transition skips 00:00 (e.g. America/Santiago, America/Havana, Atlantic/Azores) and
+// time.Date then returns a time on the previous day - on those days the day starts at
+// the transition.
+func startOfDay(date time.Time) time.Time {
+	year, month, day := date.Date()
+	t := time.Date(year, month, day, 0, 0, 0, 0, time.Local)
+
+	if t.Day() != day {
+		if _, end := t.ZoneBounds(); !end.IsZero() {
+			return end
+		}
+	}
+
+	return t
 }
 
 // Returns true if the date is the zero value.
@@ -145,10 +164,10 @@ func (d *Date) UnmarshalUT0311L0x(bytes []byte) (any, error) {
 		}
 	}
 
-	if date, err := time.ParseInLocation("20060102", decoded, time.Local); err != nil {
+	if date, err := time.Parse("20060102", decoded); err != nil {
 		return &Date{}, nil
 	} else {
-		v := Date(date)
+		v := Date(startOfDay(date))
 
 		return &v, nil
 	}
@@ -175,12 +194,12 @@ func (d *Date) UnmarshalJSON(bytes []byte) error {
 		return nil
 	}
 
-	date, err := time.ParseInLocation("2006-01-02", s, time.Local)
+	date, err := time.Parse("2006-01-02", s)
 	if err != nil {
 		return err
 	}
 
-	*d = Date(date)
+	*d = Date(startOfDay(date))
 
 	return nil
 }
